@@ -12,6 +12,7 @@ void harness(void)
     xv_ghost_havoc();
     xv_addrpub_env_havoc();
     xv_hb = nondet_long(); xv_g_b0 = nondet_uchar(); xv_g_b1 = nondet_uchar(); xv_hs_calls = nondet_int(); xv_hs_rv = nondet_bool();
+    XV_KEEP(has_space)
     const char *a; char *p, *pa; size_t pc, pac;
     int rv = proto_addr_parse(a, p, pc, pa, pac);
     if (rv == 0 && xv_in_len == XCM_ADDR_MAX && xv_chr_pos == XCM_ADDR_MAX_PROTO_LEN) XV_CANARY("longest address with the longest protocol part accepted");
